@@ -26,7 +26,7 @@ func pick(level int, q, t int) int {
 func semverish(level int, prefixes G, arMin, arMax int) G {
 	core := dotted(Lit("0", "1", "2", "10"), arMin, arMax)
 	coreTiny := dotted(Lit("0", "1"), arMin, arMax)
-	ids := Lit("0", "1", "2", "10", "alpha", "beta", "rc", "a", "A", "B", "Beta", "Alpha", "RC", "x", "-5", "a-b", "0a", "01", "99999999999999999", "18446744073709551616", "pseudo", "dev")
+	ids := Lit("0", "1", "2", "10", "alpha", "beta", "rc", "a", "A", "B", "Beta", "Alpha", "RC", "x", "-5", "a-b", "0a", "1a", "01", "99999999999999999", "18446744073709551616", "pseudo", "dev")
 	pre1 := Seq(Lit("-"), ids)
 	pre2 := Seq(Lit("-"), Lit("0", "1", "alpha", "rc", "x", "-5"), Lit("."), Lit("0", "1", "2", "10", "beta", "a", "x", "X"))
 	build := Lit("+b", "+1.x-y", "+001", "+build.x")
@@ -207,7 +207,7 @@ func Versions(name string, level int) G {
 			Seq(Opt(Lit("v", "release-", "rel-")), core),
 			Seq(Opt(Lit("v")), pick2(level, Lit("1.0.0", "1.2.3"), dotted(Lit("1", "2"), 3, 3)), Lit("-", "."), q, Opt(Lit("1", "2", "10", ".1", ".2", "01"))),
 			Seq(Opt(Lit("v")), Lit("2024", "2023", "1000", "9999", "0001"), Lit("."), Lit("1", "01", "12", "13", "0", "00"), Lit("."), Lit("1", "01", "15", "31", "32", "0")),
-			Lit("1000.1.1", "999.1.1", "10000.1.1", "2024.1.1-rc1", "2024.01.150", "2024.100.1", "1.0", "1.0.0.0", "V1.0.0", "release-v1.0.0", "1.0.0-", "1.0.0-1", "1.0.0--rc", "1.0.0-rc..1", "9223372036854775808.0.0", "1.0.0-rc9223372036854775808", "rel-1.0.0-beta.2"),
+			Lit("release-2024.1.15", "rel-2024.01.15", "release-2024.13.1", "v2024.1.15", "1000.1.1", "999.1.1", "10000.1.1", "2024.1.1-rc1", "2024.01.150", "2024.100.1", "1.0", "1.0.0.0", "V1.0.0", "release-v1.0.0", "1.0.0-", "1.0.0-1", "1.0.0--rc", "1.0.0-rc..1", "9223372036854775808.0.0", "1.0.0-rc9223372036854775808", "rel-1.0.0-beta.2"),
 			AllStrings(Chars("01.-vrc"), pick(level, 5, 6)),
 		)
 	case "mattermost":
@@ -240,7 +240,7 @@ func Versions(name string, level int) G {
 			Seq(small, Lit("-", "."), alias, num),
 			Seq(small, Lit("-", "."), alias),
 			Seq(small, Lit("-"), Lit("1", "2", "10", "0", "5")),
-			Lit("1-foo", "1-sp", "1-5", "1.0.1", "1.0-1", "1-1", "1.1", "1.0.0.0.0", "1-", "1.", "1..1", "1--1", ".1", "-1", "alpha", "sp", "ga", "a", "b", "m", "foo", "rc1", "1rc", "1rc1", "1.0-rc-sp-1", "1.0-ga-1", "1.0-alpha-beta", "1.0-1-2", "1_0", "1.0é", "2147483648", "9223372036854775808", "1.9223372036854775808", "01", "1.01", "1.0-alpha01", "1.0.0-FINAL", "1.0-xyz", "1.0.xyz", "1.0xyz", "1.0-SNAPSHOT", "1.0-snapshot-1"),
+			Lit("1-0.1", "1-0.2", "1-0", "2.0-ga.1", "2.0-ga.2", "2.0-final.1", "1-foo", "1-sp", "1-5", "1.0.1", "1.0-1", "1-1", "1.1", "1.0.0.0.0", "1-", "1.", "1..1", "1--1", ".1", "-1", "alpha", "sp", "ga", "a", "b", "m", "foo", "rc1", "1rc", "1rc1", "1.0-rc-sp-1", "1.0-ga-1", "1.0-alpha-beta", "1.0-1-2", "1_0", "1.0é", "2147483648", "9223372036854775808", "1.9223372036854775808", "01", "1.01", "1.0-alpha01", "1.0.0-FINAL", "1.0-xyz", "1.0.xyz", "1.0xyz", "1.0-SNAPSHOT", "1.0-snapshot-1"),
 			AllStrings(Chars("01asp.-"), 4),
 			pick2(level, Lit(), AllStrings(Chars("01s.-"), 5)),
 		)
